@@ -15,22 +15,10 @@
 // Oracle = std::vector / std::string mirror built from the arguments only,
 // the lifetime ledger of the Tracked element type, canaries, ASan.
 #include "C14/machine.h"
-#include <igris/container/static_vector.h>
-#include <igris/container/static_string.h>
 #include <igris/container/unbounded_array.h>
 
 using namespace hv;
 using namespace c14;
-
-namespace
-{
-    struct TwinC
-    {
-        static constexpr bool port = false;
-        template <class T, size_t N> using vec = igris::static_vector<T, N>;
-        template <size_t N> using str = igris::static_string<N>;
-    };
-}
 
 // ------------------------------------------------------------------ unbounded_array
 // (anchored by C14, repaired for C03): K heap arrays of a ledger element type.
@@ -182,6 +170,17 @@ template <class T> struct UMachine : IMachine
 
 static std::unique_ptr<IMachine> mach;
 
+// which translation unit holds the instantiation
+typedef IMachine *(*Factory)(bool, bool, size_t, int, bool);
+static IMachine *make_trk_or_rest_c(bool str, bool trk, size_t N, int K, bool can) { return !str && trk ? make_c_small_trk(str, trk, N, K, can) : make_c_small_rest(str, trk, N, K, can); }
+static IMachine *make_trk_or_rest_p(bool str, bool trk, size_t N, int K, bool can) { return !str && trk ? make_p_small_trk(str, trk, N, K, can) : make_p_small_rest(str, trk, N, K, can); }
+static Factory pick(bool p, bool str, size_t N)
+{
+    if (N <= 8) return p ? make_trk_or_rest_p : make_trk_or_rest_c;
+    if (!str && N <= 257) return p ? make_p_big_trk : make_c_big_trk;
+    return p ? make_p_big_rest : make_c_big_rest;
+}
+
 static void run_op(const std::vector<std::string> &w, const std::string &, out &o)
 {
     if (w.empty())
@@ -197,14 +196,14 @@ static void run_op(const std::vector<std::string> &w, const std::string &, out &
             bool p = w[2] == "p", trk = w[3] == "trk", can = w[6] == "canary";
             size_t N = (size_t)atoi(w[4].c_str());
             int K = atoi(w[5].c_str());
-            mach.reset(p ? make_vec_portable(trk, N, K, can) : make_vec<TwinC>(trk, N, K, can));
+            mach.reset(pick(p, false, N)(false, trk, N, K, can));
         }
         else if (w.size() == 6 && w[1] == "ss")
         {
             bool p = w[2] == "p", can = w[5] == "canary";
             size_t N = (size_t)atoi(w[3].c_str());
             int K = atoi(w[4].c_str());
-            mach.reset(p ? make_str_portable(N, K, can) : make_str<TwinC>(N, K, can));
+            mach.reset(pick(p, true, N)(true, false, N, K, can));
         }
         else if (w.size() == 4 && w[1] == "ua")
         {
@@ -558,6 +557,340 @@ static void gen_str(rng &r, bool thorough)
         }
 }
 
+
+// ---------------------------------------------------------------- big capacities
+// The boundaries of a narrowed size counter: 127/128 (int8_t), 255/256/257
+// (uint8_t), 65535/65536/65537 (uint16_t).  A container of capacity N needs
+// N + 1 size values.  Few, long histories that fill the container to exactly
+// N - 1, N and beyond by every route (one element at a time, constructor
+// arguments, resize, copy / move), and then step on the result.
+static void big_vec_history(rng &r, const VCfg &c)
+{
+    int N = c.N;
+    bool port = c.tw[0] == 'p';
+    bool huge = N >= 1000;
+    if (huge)
+    {
+        // the 64 Ki capacities: bulk fills only (every line costs O(N) on both sides)
+        P(vreset(c, 2));
+        P("new 0");
+        P("resize 0 " + S(N - 2));
+        for (int i = 0; i < 4; i++) // N-2 -> N-1 -> N -> dropped, dropped
+            P((i & 1 ? "emplace 0 " : "push 0 ") + S(val(r)));
+        P("copy 1 0");
+        P("push 1 " + S(val(r)));
+        P("resize 0 " + S(N - 1));
+        P("push 0 " + S(val(r)));
+        P("push 0 " + S(val(r)));
+        P("clear 1");
+        P("amove 1 0");
+        P("push 1 " + S(val(r)));
+        P("resize 0 " + S(N + 5));
+        P("push 0 " + S(val(r)));
+        P("acopy 1 0");
+        P("emplace 1 " + S(val(r)));
+        if (!port)
+        {
+            P("erase 0 0 1");
+            P("push 0 " + S(val(r)));
+            P("push 0 " + S(val(r)));
+        }
+        P("del 1");
+        P("move 1 0");
+        P("push 1 " + S(val(r)));
+        P("finish");
+        if (!port)
+            for (const char *k : {"range", "il"})
+            {
+                P(vreset(c, 1));
+                P(std::string(k) + " 0" + vals(r, k[0] == 'r' ? N + 1 : N));
+                P("push 0 " + S(val(r)));
+                P("finish");
+            }
+        return;
+    }
+    P(vreset(c, 3));
+    P("new 0");
+    for (int i = 0; i < N - 2; i++)
+        P((i & 1 ? "emplace 0 " : "push 0 ") + S(val(r)));
+    for (int i = 0; i < 5; i++) // N-2 -> N-1 -> N -> dropped, dropped, dropped
+        P((i & 1 ? "emplace 0 " : "push 0 ") + S(val(r)));
+    P("at 0 " + S(N - 1));
+    P("at 0 " + S(N)); // outside the contract
+    P("back 0");
+    P("front 0");
+    P("copy 1 0");
+    P("push 1 " + S(val(r)));
+    P("move 2 1");
+    P("emplace 2 " + S(val(r)));
+    P("push 1 " + S(val(r)));
+    P("resize 0 " + S(N - 1));
+    P("push 0 " + S(val(r)));
+    P("push 0 " + S(val(r)));
+    P("acopy 1 0");
+    P("emplace 1 " + S(val(r)));
+    P("clear 2");
+    P("amove 2 0");
+    P("push 2 " + S(val(r)));
+    P("push 0 " + S(val(r)));
+    P("resize 0 " + S(N + 5));
+    P("push 0 " + S(val(r)));
+    P("acopy 0 0");
+    P("amove 2 2");
+    P("resize 0 " + S(N));
+    P("emplace 0 " + S(val(r)));
+    P("resize 2 " + S(N - 1));
+    P("acopy 0 2");
+    P("push 0 " + S(val(r)));
+    P("push 0 " + S(val(r)));
+    if (!port)
+    {
+        P("erase 0 0 1");
+        P("push 0 " + S(val(r)));
+        P("push 0 " + S(val(r)));
+        P("erase 0 " + S(N - 1) + " " + S(N));
+        P("emplace 0 " + S(val(r)));
+        P("erase 0 0 " + S(N));
+        P("push 0 " + S(val(r)));
+    }
+    P("del 1");
+    P("move 1 0");
+    P("push 1 " + S(val(r)));
+    P("finish");
+    if (!port)
+        for (int len : {N - 1, N, N + 1, 2 * N + 1})
+            for (const char *k : {"range", "il"})
+            {
+                P(vreset(c, 2));
+                P(std::string(k) + " 0" + vals(r, len));
+                P("push 0 " + S(val(r)));
+                P("emplace 0 " + S(val(r)));
+                P("copy 1 0");
+                P("erase 0 1 2");
+                P("push 0 " + S(val(r)));
+                P("push 0 " + S(val(r)));
+                P("finish");
+            }
+}
+
+static void big_str_history(rng &r, const char *tw, int N)
+{
+    bool port = tw[0] == 'p';
+    bool huge = N >= 1000;
+    for (int len : {N - 1, N, N + 1, 2 * N + 2})
+    {
+        if (huge && len > N + 1) continue;
+        P(sreset(tw, N, 2));
+        P("sptr 0 " + hx(rstr(r, len, false)));
+        P("scstr 0");
+        P("spush 0 " + hb((int)r.range(1, 255)));
+        P("scstr 0");
+        P("spush 0 " + hb((int)r.range(1, 255)));
+        P("scopy 1 0");
+        P("spush 1 " + hb((int)r.range(1, 255)));
+        P("sget 1 " + S(N - 2));
+        P("sset 1 " + S(N - 2) + " " + hb((int)r.range(1, 255)));
+        P("scstr 1");
+        P("sdel 0");
+        P("sdel 1");
+        if (port)
+        {
+            std::string a = rstr(r, len, !huge && r.chance(50));
+            for (int n : {N - 1, N, N + 1, len})
+                if (n <= len && !(huge && n != len))
+                {
+                    P(sreset(tw, N, 1));
+                    P("sptrlen 0 " + hx(a) + " " + S(n));
+                    P("scstr 0");
+                    P("sadd 0 " + hb((int)r.range(1, 255)));
+                    P("sadd 0 " + hb((int)r.range(1, 255)));
+                    P("scstr 0");
+                    P("sclear 0");
+                    P("spush 0 41");
+                    P("scstr 0");
+                    P("sdel 0");
+                }
+        }
+    }
+    if (!huge)
+    {
+        P(sreset(tw, N, 1));
+        P("snew 0");
+        for (int i = 0; i < N + 3; i++)
+        {
+            P("spush 0 " + hb(1 + (i * 7) % 255));
+            if (i >= N - 3)
+                P("scstr 0");
+        }
+        P("sget 0 " + S(N - 1));
+        P("sset 0 " + S(N - 1) + " 5a");
+        P("scstr 0");
+        P("sdel 0");
+    }
+}
+
+static void gen_big(rng &r, bool)
+{
+    for (const char *tw : {"c", "p"})
+    {
+        for (int N : {255, 256, 257})
+            big_vec_history(r, VCfg{tw, "trk", N});
+        for (int N : {65535, 65536, 65537})
+            big_vec_history(r, VCfg{tw, "int", N});
+        for (int N : {127, 128, 255, 256, 257, 65535, 65536, 65537})
+            big_str_history(r, tw, N);
+    }
+}
+
+// ---------------------------------------------------------------- throwing element constructors
+// `thr k <op>`: the (k+1)-th element construction inside <op> throws (Tracked
+// throws on command, before it has touched anything).  Every operation that
+// constructs, in every (size of *this, size of other) state, with the throw at
+// EVERY construction of the operation (k = 0 .. number of constructions; the
+// last value is "nothing throws"), followed by operations that step on what the
+// failed call left behind: basic exception guarantee.
+static void gen_exc(rng &r, bool thorough)
+{
+    for (const char *tw : {"c", "p"})
+        for (int N : {1, 2, 3, 8})
+        {
+            VCfg c{tw, "trk", N};
+            bool port = tw[0] == 'p';
+            std::vector<std::pair<int, int>> kl;
+            if (N <= 3)
+            {
+                for (int k = 0; k <= N; k++)
+                    for (int l = 0; l <= N; l++)
+                        kl.push_back({k, l});
+            }
+            else
+                kl = {{0, N}, {N, N}, {N - 1, N - 1}, {3, N}, {N, 2}, {(int)r.range(0, N), (int)r.range(1, N)}};
+            for (auto [k, l] : kl)
+            {
+                // (operation, number of constructions it performs when nothing throws)
+                std::vector<std::pair<std::string, int>> ops;
+                ops.push_back({"push 0 " + S(val(r)), k < N ? 1 : 0});
+                ops.push_back({"emplace 0 " + S(val(r)), k < N ? 1 : 0});
+                ops.push_back({"copy 2 1", l});
+                ops.push_back({"move 2 1", l});
+                ops.push_back({"acopy 0 1", l});
+                ops.push_back({"amove 0 1", l});
+                ops.push_back({"acopy 0 0", 0});
+                for (int n = k + 1; n <= N + 1; n++)
+                    if (N <= 3 || n == k + 1 || n >= N || r.chance(30))
+                        ops.push_back({"resize 0 " + S(n), std::min(n, N) - k});
+                if (!port && l == 0) // the list constructors do not depend on the state: once per k
+                    for (int len = 1; len <= N + 1; len++)
+                        if (N <= 3 || len == 1 || len >= N - 1)
+                            for (const char *kind : {"range", "il"})
+                                ops.push_back({std::string(kind) + " 2" + vals(r, len), std::min(len, N)});
+                for (auto &[op, cnt] : ops)
+                    for (int t = 0; t <= cnt; t++)
+                    {
+                        if (N > 3 && t > 1 && t < cnt - 1 && !r.chance(thorough ? 60 : 20)) continue;
+                        if (N == 3 && !thorough && t > 0 && t < cnt - 1 && k > 0 && k < N && !r.chance(50)) continue;
+                        P(vreset(c, 3));
+                        fill(r, 0, k);
+                        fill(r, 1, l);
+                        P("thr " + S(t) + " " + op);
+                        // what is there now must be a usable container
+                        P("push 0 " + S(val(r)));
+                        P("emplace 1 " + S(val(r)));
+                        P("new 2"); // valid exactly when a constructor threw (there is no object)
+                        P("push 2 " + S(val(r)));
+                        if (r.chance(50)) P("thr " + S(r.range(0, 2)) + " resize 0 " + S(r.range(0, N + 1)));
+                        if (r.chance(50)) P("thr " + S(r.range(0, N)) + " acopy 1 0");
+                        if (r.chance(40)) P("thr 0 push 1 " + S(val(r)));
+                        if (r.chance(40)) P("resize 1 " + S(r.range(0, N + 1)));
+                        if (!port && r.chance(40)) P("erase 0 0 " + S(r.range(0, 1)));
+                        if (r.chance(30)) P("thr " + S(r.range(0, N)) + " amove 0 1");
+                        if (r.chance(30)) P("clear 0");
+                        P("finish");
+                    }
+            }
+            // random histories, every third operation with a throw point
+            int ncases = thorough ? 200 : 10;
+            for (int q = 0; q < ncases; q++)
+            {
+                int K = 3;
+                P(vreset(c, K));
+                int nops = (int)r.range(10, thorough ? 70 : 40);
+                for (int t = 0; t < nops; t++)
+                {
+                    int a = (int)r.below(K), b = (int)r.below(K);
+                    std::string op;
+                    int w = (int)r.below(100);
+                    if (w < 12) op = "new " + S(a);
+                    else if (w < 20) op = "copy " + S(a) + " " + S(b);
+                    else if (w < 28) op = "move " + S(a) + " " + S(b);
+                    else if (w < 36 && !port) op = std::string(r.chance(50) ? "range " : "il ") + S(a) + vals(r, (int)r.range(0, N + 2));
+                    else if (w < 56) op = (r.chance(50) ? "push " : "emplace ") + S(a) + " " + S(val(r));
+                    else if (w < 66) op = "resize " + S(a) + " " + S(r.range(0, N + 2));
+                    else if (w < 76) op = "acopy " + S(a) + " " + S(b);
+                    else if (w < 86) op = "amove " + S(a) + " " + S(b);
+                    else if (w < 90 && !port) op = "erase " + S(a) + " 0 " + S(r.range(0, 1));
+                    else if (w < 94) op = "clear " + S(a);
+                    else op = "del " + S(a);
+                    if (r.chance(35))
+                        op = "thr " + S(r.range(0, N)) + " " + op;
+                    P(op);
+                }
+                P("finish");
+            }
+        }
+    // a throw point on an element type that cannot throw is outside the contract (both sides: bad)
+    P(vreset(VCfg{"c", "int", 2}, 1));
+    P("new 0");
+    P("thr 0 push 0 5");
+    P("push 0 6");
+    P("finish");
+}
+
+// ---------------------------------------------------------------- read accessors
+// at r i (operator[] / data()[i] / *(begin()+i), const and non-const), front r, back r
+// at every index of every fill level, also after erase / resize / a move.
+static void gen_access(rng &r, bool)
+{
+    for (const char *tw : {"c", "p"})
+        for (const char *ty : {"int", "trk"})
+            for (int N : {1, 2, 3, 8})
+            {
+                VCfg c{tw, ty, N};
+                bool port = tw[0] == 'p';
+                for (int k = 0; k <= N; k++)
+                {
+                    if (N == 8 && k > 1 && k < N - 1) continue;
+                    P(vreset(c, 2));
+                    fill(r, 0, k);
+                    for (int i = 0; i <= k; i++) // i = k: outside the contract (bad on both sides)
+                        P("at 0 " + S(i));
+                    P("front 0");
+                    P("back 0");
+                    P("push 0 " + S(val(r)));
+                    P("back 0");
+                    P("move 1 0");
+                    P("front 1");
+                    P("back 1");
+                    P("front 0");
+                    P("resize 0 " + S(N));
+                    P("at 0 " + S(N - 1));
+                    P("back 0");
+                    if (!port)
+                    {
+                        P("erase 0 0 1");
+                        P("back 0");
+                        P("front 0");
+                    }
+                    P("resize 0 1");
+                    P("front 0");
+                    P("back 0");
+                    P("clear 0");
+                    P("front 0");
+                    P("finish");
+                }
+            }
+}
+
 static void gen_ua(rng &r, bool thorough)
 {
     for (const char *ty : {"int", "trk"})
@@ -618,6 +951,9 @@ int main(int argc, char **argv)
             gen_vec(r, th);
             gen_str(r, th);
             gen_ua(r, th);
+            gen_big(r, th);
+            gen_exc(r, th);
+            gen_access(r, th);
         },
         run_op);
 }
